@@ -11,6 +11,24 @@ line protocol for C10 (core-only):
         prune of the entry node has destroyed that information the driver looks for SOME order of the
         rescued nodes under which the model produces the implementation's dump (x-fields); the model is
         nondeterministic exactly there, so membership in its outcome set is what is checked.
+  batch R= ss= L=<ids> chg=<id>:<0|1>,… max= V= N=            (the dump BEFORE the batch)
+        ea=<0|1> aq=<a:b:key,…> ap=<a:b:key:alphakey,…>        (distances of the insert phase)
+        mid=<0|1> mmax= mN=                                     (node store once the insert workers are done; hook)
+        ord=<ids>                                               (EdgeScan's toSave, in the order it was returned)
+        et=<0|1> tq=<a:b:key,…> tp=<a:b:key:alphakey,…>        (distances of the single-threaded rest)
+      → "cls ins= upd= del= tch= max= | mid wf= K= [N=] | scan prune= save= | fin max= V= (K=|N=)"
+        a batch of SEVERAL changes.  `cls`: the bookkeeping `classes` (no graph, no distance) — compared
+        with what the transform function of insertUpdateDelete filed.  `mid`: what the model says about the
+        graph the insert workers leave, independently of their interleaving: its node set (K), that it is
+        well-formed for the old live points plus `ins` (wf: `wfB` on the OBSERVED mid graph), and — when at
+        most one point was handed to the workers (ea=1) — its exact edge lists (`classifyAll`).  `scan`:
+        `toPrune` / `toSave` on the observed mid graph.  `fin`: `tail` run FROM THE OBSERVED MID GRAPH with
+        the classes of `cls` must give the dump after the batch exactly (et=1), else its node/vector sets.
+  docs vp=<k.k.k> S=<id>=<doc>;… ops=<ins|upd|del>@<id>@<doc|~>;…
+      [T=<id>:<tag|->,…]
+      → "ok <id>:<tag|->,… [| vec <id>:<tag|->,…]" | "err": `pbatch` on the stored documents of the points the
+        batch names — the whole change stream of a multi-element batch, points named several times included —
+        and (plain store) `vecsAfter`: which vector the index holds per node after consuming that stream
   doc vp=<k.k.k> op=<ins|upd|del> id=<n> old=<doc|~> inc=<doc|~> was=<0|1> wasvec=<tag|-> raw=<0|1>
       → "new=<doc|~> inV=<0|1> vec=<tag|-|?>": `pstep` (the shard's transform function + `getOperation` /
         `preProcessVamana` for the vector index on schema path vp) on the stored document `old` and the
@@ -124,6 +142,133 @@ def docStep (rest : List String) : String :=
       let vec := if field rest "raw" == "1" then (match v with | some t => toString t | none => "-") else "?"
       s!"new={showDoc (docOf S' id)} inV={if v.isSome then 1 else 0} vec={vec}"
 
+
+def parseQ2 (s : String) : Std.HashMap (Nat × Nat) Nat :=
+  if s.isEmpty then {} else
+  (s.splitOn ",").foldl (fun m e =>
+    match e.splitOn ":" with
+    | [a, b, k] => match a.toNat?, b.toNat?, k.toNat? with
+      | some a, some b, some k => m.insert (a, b) k
+      | _, _, _ => m
+    | _ => m) {}
+
+def mkDists (q : Std.HashMap (Nat × Nat) Nat) (p : Std.HashMap (Nat × Nat) (Nat × Nat)) : Dists Nat :=
+  { q := fun a b => q.getD (a, b) 0, p := fun a b => (p.getD (a, b) (0, 0)).1, ap := fun a b => (p.getD (a, b) (0, 0)).2 }
+
+def parseChanges (s : String) : List Change :=
+  if s.isEmpty then [] else
+  (s.splitOn ",").filterMap fun e =>
+    match e.splitOn ":" with
+    | [i, hv] => i.toNat?.map (fun id => { id := id, hasVector := hv == "1" })
+    | _ => none
+
+def dedupSorted (l : List Nat) : List Nat := (sortNat l).eraseDups
+
+def showNodes (ns : List (Nat × List Nat)) : String :=
+  let ns := (ns.toArray.qsort (fun a b => a.1 < b.1)).toList
+  ";".intercalate (ns.map fun n => s!"{n.1}:{showIds n.2}")
+
+def batchStep (rest : List String) : String :=
+  let g := parseGraph rest
+  let cfg : Cfg := { degreeBound := (field rest "R").toNat?.getD 0, searchSize := (field rest "ss").toNat?.getD 0 }
+  let L := natList (field rest "L")
+  let batch := parseChanges (field rest "chg")
+  if batch.any (fun c => c.id == entry || c.id == 0) then "err reserved-id" else
+  let k := classes true g.hasVec g.maxId batch
+  let cls := s!"cls ins={showIds (sortNat k.ins)} upd={showIds k.upd} del={showIds k.del} tch={showIds (dedupSorted k.tch)} max={k.maxId}"
+  let ea := field rest "ea" == "1"
+  let et := field rest "et" == "1"
+  let hasMid := field rest "mid" == "1"
+  let midK := dedupSorted (g.keys ++ k.ins)
+  let midV := dedupSorted (g.vecs ++ k.ins)
+  -- the insert phase of the sequential model (exact when at most one point goes to the workers)
+  let seqMid : Option Graph :=
+    if ea then
+      match classifyAll true cfg (mkDists (parseQ2 (field rest "aq")) (parseP (field rest "ap"))) batch { g := g } with
+      | .ok acc => some acc.g
+      | .error _ => none
+    else none
+  -- the graph handed to the single-threaded rest: observed (hook) when there is one, else the model's own
+  let obsMid : Graph := { nodes := parseNodes (field rest "mN"), vecs := midV, maxId := (field rest "mmax").toNat?.getD 0 }
+  let midWf := if hasMid then (if wfB cfg.degreeBound obsMid (L ++ k.ins) then "1" else "0") else "-"
+  let midN :=
+    if ea then
+      match seqMid with
+      | some m => " N=" ++ showNodes m.nodes
+      | none => " N=err"
+    else ""
+  let mid := s!"mid wf={midWf} K={showIds midK}{midN}"
+  let S := k.tch
+  let ord := natList (field rest "ord")
+  let scan :=
+    if hasMid && !S.isEmpty then
+      s!"scan prune={showIds (sortNat (toPrune S obsMid))} save={showIds (sortNat (toSave S ord obsMid))}"
+    else "scan prune= save="
+  let finSets (K V : List Nat) (mx : Nat) : String := s!"fin max={mx} V={showIds V} K={showIds K}"
+  let notDel := fun (i : Nat) => !k.del.contains i
+  let fin :=
+    if S.isEmpty then
+      -- nothing after the insert phase: the dump after the batch IS the mid graph
+      match ea, seqMid with
+      | true, some m => "fin " ++ showGraph m
+      | true, none => "fin err"
+      | false, _ => finSets midK midV k.maxId
+    else if hasMid && et then
+      let acc : Acc := { g := obsMid, updated := k.upd, deleted := k.del, touched := k.tch }
+      match tail cfg (mkDists (parseQ2 (field rest "tq")) (parseP (field rest "tp"))) ord acc with
+      | .ok g' => "fin " ++ showGraph g'
+      | .error _ => "fin err"
+    else finSets (midK.filter notDel) (midV.filter notDel) k.maxId
+  s!"{cls} | {mid} | {scan} | {fin}"
+
+def docsStep (rest : List String) : String :=
+  let toks := rest
+  let vp := ((field rest "vp").splitOn ".").filterMap String.toNat?
+  let S : PStore :=
+    if (field rest "S").isEmpty then [] else
+    ((field rest "S").splitOn ";").filterMap fun e =>
+      match e.splitOn "=" with
+      | [i, d] => match i.toNat?, parseDoc d with
+        | some id, some doc => some (id, doc)
+        | _, _ => none
+      | _ => none
+  let ops : List (Option POp) :=
+    if (field rest "ops").isEmpty then [] else
+    ((field rest "ops").splitOn ";").map fun e =>
+      match e.splitOn "@" with
+      | [k, i, d] =>
+        match i.toNat? with
+        | none => none
+        | some id =>
+          match k, parseDoc d with
+          | "ins", some doc => some (.ins id doc)
+          | "upd", some doc => some (.upd id doc)
+          | "del", _ => some (.del id)
+          | _, _ => none
+      | _ => none
+  if ops.any Option.isNone then "bad-op" else
+  match pbatch vp (ops.filterMap id) S with
+  | .error _ => "err"
+  | .ok (_, cs) =>
+    let stream :=
+      if cs.isEmpty then "ok" else
+      "ok " ++ ",".intercalate (cs.map fun c => s!"{c.id}:{match c.vec with | some t => toString t | none => "-"}")
+    -- `T=<id>:<tag|->,…` (plain store): which vector the index held per node before the batch; the model's
+    -- `vecsAfter` along the emitted stream says which it holds afterwards
+    match toks.find? (fun t => t.startsWith "T=") with
+    | none => stream
+    | some _ =>
+      let tab : List (Nat × Option Nat) :=
+        if (field rest "T").isEmpty then [] else
+        ((field rest "T").splitOn ",").filterMap fun e =>
+          match e.splitOn ":" with
+          | [i, t] => i.toNat?.map (fun n => (n, t.toNat?))
+          | _ => none
+      let T : Id → Option Nat := fun j => ((tab.find? (·.1 == j)).map (·.2)).getD none
+      let ids := dedupSorted (cs.map (·.id))
+      stream ++ " | vec " ++ ",".intercalate (ids.map fun i =>
+        s!"{i}:{match vecsAfter T cs i with | some t => toString t | none => "-"}")
+
 def step (line : String) : String :=
   let toks := line.trimAscii.toString.splitOn " "
   match toks with
@@ -159,6 +304,8 @@ def step (line : String) : String :=
           else first
     | _ => "bad-op"
   | "doc" :: rest => docStep rest
+  | "batch" :: rest => batchStep rest
+  | "docs" :: rest => docsStep rest
   | _ => "skip (not a model line)"
 
 end Sema.C10
